@@ -472,3 +472,55 @@ pub fn gen_unprotected(g: &mut Gen) -> Header {
     }
     h
 }
+
+/// An unprotected header to go beside the built protected header `p` in a builder: unrelated, or
+/// *related* to it — the complementary IV kind (IV beside Partial IV and the reverse), the same
+/// algorithm / key id / content type / extras again, or a plain copy.  The two buckets are separate
+/// maps: whatever the unprotected bucket holds, and whenever it is set, the protected header and
+/// the structures built from it stay what they were.
+pub fn gen_unprotected_for(g: &mut Gen, p: &Header) -> Header {
+    let mut h = gen_unprotected(g);
+    match g.below(5) {
+        0 => {}
+        1 => {
+            h.iv = vec![];
+            h.partial_iv = vec![];
+            if !p.partial_iv.is_empty() {
+                h.iv = g.nonempty_bytes();
+            } else if !p.iv.is_empty() {
+                h.partial_iv = g.nonempty_bytes();
+            } else if g.bool() {
+                h.iv = g.nonempty_bytes();
+            } else {
+                h.partial_iv = g.nonempty_bytes();
+            }
+        }
+        2 => {
+            h.alg = p.alg.clone();
+            h.key_id = p.key_id.clone();
+            h.content_type = p.content_type.clone();
+            h.rest = p.rest.clone();
+        }
+        3 => {
+            h.iv = p.iv.clone();
+            h.partial_iv = p.partial_iv.clone();
+            h.crit = p.crit.clone();
+            h.counter_signatures = p.counter_signatures.clone();
+        }
+        _ => h = p.clone(),
+    }
+    h
+}
+
+/// How a builder gets its two headers: protected only; unprotected first; protected first.
+#[macro_export]
+macro_rules! builder_with_headers {
+    ($b:ty, $g:expr, $h:expr) => {{
+        let u = $crate::props::structs::gen_unprotected_for($g, $h);
+        match $g.below(3) {
+            0 => <$b>::new().protected($h.clone()),
+            1 => <$b>::new().unprotected(u).protected($h.clone()),
+            _ => <$b>::new().protected($h.clone()).unprotected(u),
+        }
+    }};
+}
